@@ -102,7 +102,7 @@ func (p c02) Run(w *mon.Worker, idx int) mon.Result {
 	if doc.IsScalar() {
 		doc = ref.MapV(ref.KV{K: "a", V: doc})
 	}
-	law := []string{"put", "put", "getput", "putput", "update", "compound", "put", "sharing", "overwrite", "rhsread", "update"}[idx%11]
+	law := []string{"put", "put", "getput", "putput", "update", "compound", "put", "sharing", "overwrite", "rhsread", "update", "rhsmerge"}[idx%12]
 	opts := gen.PathOpts{AllowCreate: law == "put" || law == "putput", AllowMulti: true, NoRoot: true}
 	opts.MultiIdx = (law == "update" || law == "put") && r.IntN(6) == 0
 	path := gen.RandomPath(r, doc, opts)
@@ -248,6 +248,86 @@ func (p c02) Run(w *mon.Worker, idx int) mon.Result {
 			return fail("`%s`\n expected %s\n observed %s", expr, want, got)
 		}
 		return hold("intermediate overwritten with the string")
+
+	case "rhsmerge":
+		// `p = (A op B)` with A and B containers of the same document that share keys: the merge works on
+		// copies, so A and B read the same afterwards and p holds what `A op B` yields on its own
+		mk := func(depth int) *ref.V {
+			m := &ref.V{K: ref.Map, M: []ref.KV{}}
+			for _, k := range []string{"k", "j", "m", "n"} {
+				if r.IntN(3) == 0 {
+					continue
+				}
+				var x *ref.V
+				switch {
+				case depth > 0 && r.IntN(3) == 0:
+					x = ref.MapV(ref.KV{K: "q", V: gen.SimpleValue(r, 0)}, ref.KV{K: "w", V: gen.SimpleValue(r, 0)})
+				case r.IntN(4) == 0:
+					x = ref.SeqV(gen.SimpleValue(r, 0), gen.SimpleValue(r, 0))
+				default:
+					x = gen.SimpleValue(r, 0)
+				}
+				m.M = append(m.M, ref.KV{K: k, V: x})
+			}
+			return m
+		}
+		a, b := mk(1), mk(1)
+		if len(a.M) == 0 || len(b.M) == 0 {
+			res.Nontrivial = false
+			return hold("empty operand")
+		}
+		d2 := ref.MapV(ref.KV{K: "a", V: a}, ref.KV{K: "keep", V: doc}, ref.KV{K: "b", V: b})
+		if r.IntN(3) == 0 {
+			d2 = ref.MapV(ref.KV{K: "s", V: ref.SeqV(a, b)}, ref.KV{K: "keep", V: doc})
+		}
+		A, B := ".a", ".b"
+		if _, ok := d2.Get("s"); ok {
+			A, B = ".s[0]", ".s[1]"
+		}
+		op := []string{"*", "*", "*+", "*d", "*n", "*?", "+"}[r.IntN(7)]
+		target := []string{".c", ".keep", ".c.d", ".keep2[1]"}[r.IntN(4)]
+		form := r.IntN(3)
+		var expr string
+		switch form {
+		case 0:
+			expr = fmt.Sprintf("%s = (%s %s %s)", target, A, op, B)
+		case 1:
+			expr = fmt.Sprintf("%s |= ($root | %s %s %s)", target, A, op, B)
+			expr = ". as $root | " + expr
+		default:
+			expr = fmt.Sprintf("(%s %s %s) as $m | %s = $m", A, op, B, target)
+		}
+		cs["expr"], cs["doc"] = expr, d2.JSON()
+		res.Sig = fmt.Sprintf("rhsmerge|%s|%s|%d|%x", op, target, form, d2.ShapeHash())
+		res.Tags = append(res.Tags, "rhsmerge:"+op)
+		mv, _, merr := evalDoc(fmt.Sprintf("%s %s %s", A, op, B), d2)
+		got, _, yerr := evalDoc(expr, d2)
+		res.Evals += 2
+		if merr != nil || mv == nil {
+			res.Nontrivial = false
+			return hold("the merge itself is not defined here")
+		}
+		res.Nontrivial = true
+		if yerr != nil || got == nil {
+			return fail("`%s` failed (%v) although `%s %s %s` alone works", expr, yerr, A, op, B)
+		}
+		want := d2.Copy()
+		var tp []any
+		switch target {
+		case ".c":
+			tp = []any{"c"}
+		case ".keep":
+			tp = []any{"keep"}
+		case ".c.d":
+			tp = []any{"c", "d"}
+		default:
+			tp = []any{"keep2", 1}
+		}
+		_ = ref.SetPath(want, tp, mv)
+		if !ref.EqualNum(got, want) {
+			return fail("`%s`: operands of a merge on the right-hand side must read the same afterwards, the target holds the merge result\n input    %s\n expected %s\n observed %s", expr, d2, want, got)
+		}
+		return hold("operands untouched, target holds the merge result")
 
 	case "rhsread":
 		// `p = E` where E only READS, through nulls, missing keys and one past the end of sequences:
